@@ -36,6 +36,19 @@ type inputRec struct {
 type region struct {
 	key  string
 	cond *Term
+	only []string // when set: applies only to violations whose message contains one of these
+}
+
+func (r region) appliesTo(msg string) bool {
+	if len(r.only) == 0 {
+		return true
+	}
+	for _, o := range r.only {
+		if strings.Contains(msg, o) {
+			return true
+		}
+	}
+	return false
 }
 
 type traceRec struct {
@@ -555,7 +568,7 @@ func (e *Exec) obligation(fail *Term, kind, msg string) {
 func (e *Exec) classifyViolation(fail *Term, kind, msg string) {
 	var listed []region
 	for _, r := range e.regions {
-		if e.sh.knownKeys[r.key] {
+		if e.sh.knownKeys[r.key] && r.appliesTo(msg) {
 			listed = append(listed, r)
 		}
 	}
